@@ -142,6 +142,26 @@ func newRig() *rig {
 		v, err := call.Otto.Call(call.Argument(0).String(), nil, call.Argument(1))
 		return harness.Repr(v) + errName(err)
 	})
+	// a host that evaluates source in the current context (a debugger, a REPL command) and survives its failure:
+	// by error value (heval) or by recovering the Go panic of a host function called from that source (hevalrecover)
+	host("heval", func(call otto.FunctionCall) string {
+		v, err := call.Otto.Eval(call.Argument(0).String())
+		return harness.Repr(v) + errName(err)
+	})
+	host("hevalrecover", func(call otto.FunctionCall) (res string) {
+		defer func() {
+			if p := recover(); p != nil {
+				if _, ok := p.(hostPanic); ok || fmt.Sprint(p) == "hpanic" {
+					res = "recovered"
+					return
+				}
+				panic(p)
+			}
+		}()
+		v, err := call.Otto.Eval(call.Argument(0).String())
+		return harness.Repr(v) + errName(err)
+	})
+	r.vm.Set("hpanic", func(call otto.FunctionCall) otto.Value { panic("hpanic") })
 	if _, err := r.vm.Run("function __battery() { return " + battery + " }"); err != nil {
 		panic(err)
 	}
@@ -168,7 +188,10 @@ func (r *rig) fire() {
 	case r.vm.Interrupt <- r.fire:
 	default:
 	}
-	if r.injectAt > 0 && r.polls >= r.injectAt {
+	// the interrupt function panics once, at step injectAt, as a host's would: if anything swallows that panic the
+	// script goes on polling, its trace grows or Run returns — which is what the oracle looks for. (Panicking at
+	// every later step as well would cut a continuing script short at its next polling point and hide it.)
+	if r.injectAt > 0 && r.polls == r.injectAt {
 		panic(sentinel{r.injectAt})
 	}
 	if r.polls > r.limit {
@@ -568,6 +591,66 @@ var abnormalFacet = harness.Register(&harness.Facet[abnormalCase]{
 })
 
 func TestAbnormalExit(t *testing.T) { abnormalFacet.Run(t) }
+
+// ---- facet: an execution context that survives the abnormal exit of something inside it -----------------
+
+type survivorCase struct {
+	Name string   `json:"name"`
+	Src  string   `json:"src"`
+	Want []string `json:"want"` // the host-call trace ES5 (and common sense) prescribes: an absolute oracle
+}
+
+var survivorCases = []survivorCase{
+	{"rangeerror-through-with-caught-in-same-function",
+		`var o={p:"with-object"}, p="outer"; function deep(n){ return deep(n+1) } function f(){ try { with(o){ deep(0) } } catch(e){ log("caught", e instanceof RangeError) } log("after", p); p="assigned"; log(o.p, p) } f()`,
+		[]string{`string:"caught"|boolean:true`, `string:"after"|string:"outer"`, `string:"with-object"|string:"assigned"`}},
+	{"rangeerror-through-labelled-with-in-loop",
+		`var o={p:"with-object"}, p="outer", n=0; function deep(k){ return deep(k+1) } function f(){ L: for (var i=0;i<2;i++){ try { with(o){ M: { deep(0) } } } catch(e){ n++; continue L } } log("after", p, n) } f(); log("end", p)`,
+		[]string{`string:"after"|string:"outer"|number:2`, `string:"end"|string:"outer"`}},
+	{"eval-from-host-fails-inside-with",
+		`var o={p:"with-object"}, p="outer"; function g(){ log("before", p); heval("with(o){ throw new TypeError('t') }"); log("after", p); p="assigned"; log(o.p, p) } g(); log("end", p)`,
+		[]string{`string:"before"|string:"outer"`, `heval=undefined!TypeError`, `string:"after"|string:"outer"`, `string:"with-object"|string:"assigned"`, `string:"end"|string:"assigned"`}},
+	{"eval-from-host-fails-at-global-level",
+		`var o={p:"with-object"}, p="outer"; heval("with(o){ null.x }"); log("after", p); heval("L: with(o){ for(;;){ undefinedName } }"); log("again", p)`,
+		[]string{`heval=undefined!TypeError`, `string:"after"|string:"outer"`, `heval=undefined!ReferenceError`, `string:"again"|string:"outer"`}},
+	{"host-panic-inside-evaluated-with-recovered-by-the-host",
+		`var o={p:"with-object"}, p="outer"; function g(){ hevalrecover("with(o){ hpanic() }"); log("after", p); hevalrecover("L: with(o){ M: with({q:1}){ hpanic() } }"); log("again", p, typeof q) } g(); log("end", p)`,
+		[]string{`hevalrecover=recovered`, `string:"after"|string:"outer"`, `hevalrecover=recovered`, `string:"again"|string:"outer"|string:"undefined"`, `string:"end"|string:"outer"`}},
+	{"stack-limit-inside-evaluated-code-then-exact-limit-again",
+		`function deep(k){ return deep(k+1) } function g(){ heval("deep(0)"); var d=0; function count(k){ d=k; return count(k+1) } try { count(1) } catch(e){} return d } var a=g(), b=g(); log(a===b, a>250)`,
+		[]string{`heval=undefined!RangeError`, `heval=undefined!RangeError`, `boolean:true|boolean:true`}},
+}
+
+var survivorFacet = harness.Register(&harness.Facet[survivorCase]{
+	Name: "surviving-context-after-inner-abnormal-exit",
+	Rule: "complete enumeration of scenarios in which an execution context SURVIVES the abnormal exit of something inside it: a stack-limit RangeError or an interpreter-raised error leaves a with body (plain, labelled, inside a loop) and is caught in the same function; source evaluated by a host function in the current context (Otto.Eval from a debugger/REPL-like host) fails with an uncaught exception, or a host panic inside it is recovered by that host function. Oracle (absolute, not differential): the host-call trace ES5 prescribes — afterwards identifiers resolve as before the with statement, assignments go where they went before, the depth limit is what it was; then scope depth and pending labels are 0 and the battery runs normally. Every case non-trivial; distinct by scenario",
+	Check: func(c survivorCase) harness.Outcome {
+		out := harness.Outcome{Nontrivial: true, Classes: []string{"scenario:" + c.Name}}
+		r := newRig()
+		res, wedged := r.submit("run", c.Src)
+		if wedged {
+			out.Fail = wedgeMsg + "\n" + c.Src
+			return out
+		}
+		if res.Panicked || res.Err != nil {
+			out.Fail = fmt.Sprintf("scenario %s: Run ended with %s, want a normal end\n%s", c.Name, res.Describe(), c.Src)
+			return out
+		}
+		if strings.Join(r.trace, "\n") != strings.Join(c.Want, "\n") {
+			out.Fail = fmt.Sprintf("scenario %s: host-call trace %q, want %q (the surviving context is not what it was before the inner abnormal exit)\n%s", c.Name, r.trace, c.Want, c.Src)
+			return out
+		}
+		if msg := r.postConditions(len(r.trace)); msg != "" {
+			out.Fail = fmt.Sprintf("scenario %s: %s\n%s", c.Name, msg, c.Src)
+		}
+		return out
+	},
+})
+
+func TestSurvivingContext(t *testing.T) {
+	harness.SetExhaustive(survivorFacet.Name)
+	survivorFacet.Each(t, survivorCases)
+}
 
 // ---- facet: the stack depth limit admits exactly the configured nesting ------------------------------
 
